@@ -6,7 +6,11 @@ From Coq Require Import Lia.
 Definition wf_pool (p : pool) : bool := forallb wf_frame p.
 
 (* the one premise on user-supplied data (the property's quantifier: "user-supplied columns
-   of matching length"): AddColumn gets a column as long as the frame, or the frame is empty *)
+   of matching length"): AddColumn gets a column as long as the frame, or the frame is empty.
+   Apply needs no premise on the user's function, also for the functions of the menu that
+   return a slice of another length (10, 11): column-wise every column of a well-formed frame
+   changes length alike (Proof_C01b.wfn_apply_col), row-wise a result is cut to ncols cells
+   or the call is an error (Proof_C01b.wf_apply_row); see apply_length_changing_wf below. *)
 Definition op_ok (p : pool) (o : op) : bool :=
   match o with
   | OAddColumn i _ d =>
@@ -128,4 +132,15 @@ Example histories_wf_nonvacuous :
   let ops := [OAppendRow 0 [([99%N], CI KInt 5)]; OHead 0 1; OJoin JOuter 0 1 [97%N]; OAddColumn 1 [122%N] [CNil]] in
   wf_pool [f] = true /\ run_ok {| o_pf := []; o_fmt := []; o_tparse := [] |} [f] ops = true
   /\ length (run {| o_pf := []; o_fmt := []; o_tparse := [] |} [f] ops) = 3%nat.
+Proof. vm_compute. repeat split. Qed.
+
+(* a history that applies the length-changing functions on both axes: every state is well formed
+   (op_ok holds trivially for Apply; the frames change their number of rows, all columns alike) *)
+Example apply_length_changing_wf :
+  let O := {| o_pf := []; o_fmt := []; o_tparse := [] |} in
+  let f := [([97%N], ([97%N], [CI KInt 1; CNil; CNil])); ([98%N], ([98%N], [CS [120%N]; CB true; CNil]))] in
+  let ops := [OApply 0 11 None; OApply 0 10 (Some [0]); OApply 1 11 (Some [1]); OApply 0 10 (Some [1])] in
+  wf_pool [f] = true /\ run_ok O [f] ops = true /\ wf_pool (run O [f] ops) = true
+  /\ map nrows (run O [f] ops) = [3; 4; 1; 4]%nat
+  /\ fst (step O [f] (OApply 0 10 (Some [1]))) = Err.
 Proof. vm_compute. repeat split. Qed.
